@@ -105,13 +105,17 @@ func DeclareView(ctx context.Context, scope *ReferenceScope, expr parser.ViewDec
 }
 
 func Select(ctx context.Context, scope *ReferenceScope, query parser.SelectQuery) (*View, error) {
-	return selectQuery(ctx, scope, query, false)
+	return selectQuery(ctx, scope, query, false, false)
 }
 
 // selectQuery executes a select query. If recursive is true, the query is the definition of the recursive
 // inline table scope.RecursiveTable and the set operation at the top of the query is the recursion.
 // Set operations nested in its operands, in subqueries or in inline tables are ordinary set operations.
-func selectQuery(ctx context.Context, scope *ReferenceScope, query parser.SelectQuery, recursive bool) (*View, error) {
+func selectQuery(ctx context.Context, scope *ReferenceScope, query parser.SelectQuery, forUpdate bool, recursive bool) (*View, error) {
+	if query.IsForUpdate() {
+		forUpdate = true
+	}
+
 	var intoVars []parser.Variable = nil
 	if selectEntity, ok := query.SelectEntity.(parser.SelectEntity); ok && selectEntity.IntoClause != nil {
 		intoClause := selectEntity.IntoClause.(parser.IntoClause)
@@ -139,7 +143,7 @@ func selectQuery(ctx context.Context, scope *ReferenceScope, query parser.Select
 		ctx,
 		queryScope,
 		query.SelectEntity,
-		query.IsForUpdate(),
+		forUpdate,
 		recursive,
 	)
 	if err != nil {
@@ -240,7 +244,8 @@ func selectEntity(ctx context.Context, scope *ReferenceScope, expr parser.QueryE
 
 func selectSetEntity(ctx context.Context, scope *ReferenceScope, expr parser.QueryExpression, forUpdate bool) (*View, error) {
 	if subquery, ok := expr.(parser.Subquery); ok {
-		return Select(ctx, scope, subquery.Query)
+		// FOR UPDATE of the set operation covers a parenthesized operand as it covers a bare one
+		return selectQuery(ctx, scope, subquery.Query, forUpdate, false)
 	}
 
 	view, err := selectEntity(ctx, scope, expr, forUpdate, false)
